@@ -180,4 +180,25 @@ func init() {
 		Variant{Name: "server name not pinned", Property: "C19", File: tlsf,
 			Old: "\t\ttlsConfig.ServerName = clientConfig.CAServerName\n", New: "", Expect: "O19.2"},
 	)
+	// ---- C20
+	obs := "proxy/replication_stream_observer.go"
+	trk := "proxy/stream_tracker.go"
+	addVariants(
+		Variant{Name: "unlock no longer deferred in ReportStreamValue", Property: "C20", File: obs,
+			Old: "\tdefer s.streamGrowLock.Unlock()\n", New: "", Expect: "O20.4"},
+		Variant{Name: "new size computed in int32 again", Property: "C20", File: obs,
+			Old: "\t\tnewSize := min((int(idx)+1)*9, math.MaxInt32) / 8", New: "\t\tnewSize := min(int((idx+1)*9), math.MaxInt32) / 8", Expect: "O20.5"},
+		Variant{Name: "deferred -1 report dropped", Property: "C20", File: adm,
+			Old: "\tdefer s.reportStreamValue(sourceClusterShardID.ShardID, -1)\n", New: "", Expect: "O20.3"},
+		Variant{Name: "-1 report for the other shard", Property: "C20", File: adm,
+			Old: "\tdefer s.reportStreamValue(sourceClusterShardID.ShardID, -1)\n", New: "\tdefer s.reportStreamValue(targetClusterShardID.ShardID, -1)\n", Expect: "O20.3"},
+		Variant{Name: "CapturePanic armed after the metadata decode", Property: "C20", File: adm,
+			Old: "\tdefer log.CapturePanic(s.loggers.Get(logging.ReplicationStreams), &retError)\n\n\ttargetMetadata, ok := metadata.FromIncomingContext(streamServer.Context())\n\tif !ok {\n\t\treturn serviceerror.NewInvalidArgument(\"missing cluster & shard ID metadata\")\n\t}", New: "\ttargetMetadata, ok := metadata.FromIncomingContext(streamServer.Context())\n\tif !ok {\n\t\treturn serviceerror.NewInvalidArgument(\"missing cluster & shard ID metadata\")\n\t}\n\tdefer log.CapturePanic(s.loggers.Get(logging.ReplicationStreams), &retError)\n", Expect: "O20.1"},
+		Variant{Name: "decode error ignored", Property: "C20", File: adm,
+			Old: "\tif err != nil {\n\t\treturn err\n\t}\n\n\tlogger := log.With(s.loggers.Get(logging.ReplicationStreams),", New: "\t_ = err\n\n\tlogger := log.With(s.loggers.Get(logging.ReplicationStreams),", Expect: "O20.2"},
+		Variant{Name: "tracker update with a non-deferred lock around formatting", Property: "C20", File: trk,
+			Old: "func (st *StreamTracker) UnregisterStream(id string) {\n\tst.mu.Lock()\n\tdefer st.mu.Unlock()\n\n\tdelete(st.streams, id)\n}", New: "func (st *StreamTracker) UnregisterStream(id string) {\n\tst.mu.Lock()\n\t_ = fmt.Sprintf(\"%v\", st.streams[id])\n\tdelete(st.streams, id)\n\tst.mu.Unlock()\n}", Expect: "O20.4"},
+		Variant{Name: "early return with the tracker lock held", Property: "C20", File: trk,
+			Old: "func (st *StreamTracker) GetStreamCount() int {\n\tst.mu.RLock()\n\tdefer st.mu.RUnlock()\n\n\treturn len(st.streams)\n}", New: "func (st *StreamTracker) GetStreamCount() int {\n\tst.mu.RLock()\n\tif len(st.streams) == 0 {\n\t\treturn 0\n\t}\n\tn := len(st.streams)\n\tst.mu.RUnlock()\n\treturn n\n}", Expect: "O20.4"},
+	)
 }
